@@ -70,7 +70,7 @@ class Spike(Job):
 
 
 def jobs(tier):
-    N = 5 if tier == "quick" else 9
+    N = 6 if tier == "quick" else 16
     out = []
     for method in ("average", "differential"):
         for n in range(1, N + 1):
@@ -95,11 +95,11 @@ ASSUMPTIONS = ["numpy.ma environment model validated per path against numpy 1.26
 
 
 def bounds(tier):
-    return {"series_length": "1..5" if tier == "quick" else "1..9", "methods": ["average", "differential", "other -> ValueError"],
+    return {"series_length": "1..6" if tier == "quick" else "1..16", "methods": ["average", "differential", "other -> ValueError"],
             "thresholds": "each present/absent, symbolic value >= 0 (incl. 0, equal, crossed)"}
 
 
 LEVEL_TEXT = ("bounded symbolic model checking of the real spike_test source: all values, NaN placements and thresholds are "
               "symbolic, z3 proves every interior flag equals the property's spike-magnitude rule and end points are UNKNOWN")
-LEVEL_NOTE = "bounds: n<=5/7, grid G, thresholds>=0; numpy.ma environment model validated by per-path witnesses"
+LEVEL_NOTE = "bounds: n<=6/16, grid G, thresholds>=0; numpy.ma environment model validated by per-path witnesses"
 TECHNIQUE = "symbolic execution of the real Python source over a modelled numpy + z3 (SMT, linear real arithmetic with sign cases)"
